@@ -16,7 +16,7 @@ wt = "/tmp/mut/%s" % tag; out = "/tmp/mut/out_%s" % tag
 os.makedirs("/tmp/mut/prompts", exist_ok=True); os.makedirs(out, exist_ok=True)
 if not os.path.isdir(wt):
     subprocess.check_call("git -C /repo worktree add -q --detach %s HEAD" % wt, shell=True)
-T = open('/verif/tools/benignprompt.tmpl').read()
+T = open(os.environ.get('BENIGN_TMPL', '/verif/tools/benignprompt.tmpl')).read()
 txt = (T.replace("@WT@", wt).replace("@OUT@", out).replace("@N@", str(n))
         .replace("@PROPS@", text(props[p1]) + "\n" + text(props[p2])))
 open("/tmp/mut/prompts/%s.txt" % tag, "w").write(txt)
